@@ -141,6 +141,15 @@ theorem C07_value_typed_error_constructor_writes_nothing (p : Program) (fn : Fn)
     ∃ e, (ctorTail p.ctx n node args st).1 = .error e :=
   valErr_ctorTail_writes_nothing p fn hmem huniq hv hnd n node hfn args st
 
+/-- the same for a decorator: it always fails, is never marked as called and writes no decorated value — the key stays
+    undecorated and every demand runs the decorator again -/
+theorem C07_value_typed_error_decorator_writes_nothing (p : Program) (fn : Fn) (hmem : fn ∈ p.fns)
+    (huniq : ∀ g ∈ p.fns, g.id = fn.id → g = fn) (hv : (forcedOf p.types fn).isSome = true) (hnd : p.cfg.dry = false)
+    (d : Nat) (node : DecoNode) (hfn : node.fn = fn) (args : List Val) (st : St) :
+    (decoTail p.ctx d node args st).2.decos = st.decos ∧ (decoTail p.ctx d node args st).2.scopes = st.scopes ∧
+    ∃ e, (decoTail p.ctx d node args st).1 = .error e :=
+  valErr_decoTail_writes_nothing p fn hmem huniq hv hnd d node hfn args st
+
 /-- ... and for whole programs: **nothing a function with a value-typed error result returns is ever handed to any user
     function** (as an argument or part of one, in any scope, through single values, groups, decorated values or
     parameter objects), **nor does it sit in any cache at the end** — in every history, none of its executions has a
@@ -213,4 +222,5 @@ example : veF ∈ veProg.fns ∧ (∀ g ∈ veProg.fns, g.id = veF.id → g = ve
 #print axioms C07_value_typed_error_never_succeeds
 #print axioms C07_value_typed_error_results_never_delivered
 #print axioms C07_value_typed_error_constructor_writes_nothing
+#print axioms C07_value_typed_error_decorator_writes_nothing
 end Dig.C07
